@@ -59,6 +59,9 @@ ADDRS = [("127.0.0.1", 50001), ("127.0.0.1", 50002), ("10.0.0.7", 50001)]
 HOWS = [("shutdownIx", socket.SHUT_RDWR), ("shutdownSendIx", socket.SHUT_WR), ("shutdownReceiveIx", socket.SHUT_RD)]
 
 
+INPROCESS = False      # set per tier by plan()
+
+
 class HarnessError(BaseException):
     pass
 
@@ -295,6 +298,8 @@ def _freeze():
 
 def plan(tier):
     import ioflo.aio.tcp.serving  # noqa: preload before fork
+    global INPROCESS
+    INPROCESS = tier == "quick"      # quick needs ~8 s of one core; thorough fans out over the pool
     _freeze()
     shards = []
     for tls in (0, 1):
